@@ -274,7 +274,8 @@ def rule_r5(chk):
     vm = chk.repo.mod(VMOD)
     sm = chk.repo.mod(SMOD)
     fm = chk.repo.mod(FMOD)
-    for inst in ({"n": 2, "p": 3, "nx": 5, "T": 7}, {"n": 3, "p": 2, "nx": 7, "T": 11}):
+    for inst in ({"n": 2, "p": 3, "nx": 5, "T": 7}, {"n": 3, "p": 2, "nx": 7, "T": 11}) + \
+            (({"n": 5, "p": 7, "nx": 2, "T": 13}, {"n": 7, "p": 5, "nx": 3, "T": 17}, {"n": 11, "p": 2, "nx": 13, "T": 19}) if chk.tier == "thorough" else ()):
         n, p, nx, T = inst["n"], inst["p"], inst["nx"], inst["T"]
         tag = f"[n={n},p={p}]"
         base = {
